@@ -29,7 +29,7 @@ def operand_reads(op):
 
 def run(ctx, report):
     thorough = ctx.tier == 'thorough'
-    L = LifterModel(ctx, opmodes=('u32', 'u16') if thorough else ('u32',), rich=thorough)
+    L = LifterModel(ctx, opmodes=('u32', 'u16'), rich=True)
     sem = L.sem
     eff = load_effects_ref()
     ccref = load_cc_ref()
@@ -40,10 +40,74 @@ def run(ctx, report):
         'flag/register effects), the read set (identifiers and memory cells reached by get_r(mem_read=True) semantics over the E4 template, plus the address of '
         'memory destinations) contains every architectural input (explicit operands by position, implicit registers, flags of the condition code, df, memory through '
         'esi/edi/esp) and the write set contains every architectural output.  D2: the generic MMX fallback only writes its first operand, so every '
-        '"#"-mnemonic with implicit effects must have its own entry in mnemo_func -- checked through the same table.')
+        '"#"-mnemonic with implicit effects must have its own entry in mnemo_func -- checked through the same table. D3: for every register-operand shape the decoder produces (register file, size key, modifier context, operand size) and every register number 0..7, dict_to_Expr (partially evaluated) yields the IR register of that file and number (sub-register slices for 8/16-bit).')
     report.not_decided = 'dependencies that my reference table does not list; fidelity of the row -> operand-form model (assumption, validated at authoring time).'
     report.assumptions.append('read set = union of src.get_r(mem_read=True) of every assignment plus the address identifiers of memory destinations')
     R1 = report.rule('C08.D1', 'architectural reads and writes are contained in the lifted read/write sets', floor=250)
+    # ---------------------------------------------------------------- D3 register operands denote the right register
+    R3 = report.rule('C08.D3', 'a register operand is lifted to the register (file and number) the decoder means', floor=300)
+    X, E, afs = L.X, L.X.env, L.X.afs
+    I = L.I
+    d2e = I.g.get('dict_to_Expr')
+    shapes = {}
+    for inst in L.instances:
+        for od in inst.operands:
+            if od.get(afs.ad) or afs.imm in od:
+                continue
+            regs = [k for k in od if isinstance(k, int)]
+            if len(regs) != 1:
+                continue
+            n = regs[0]
+            cm = tuple(sorted((str(k), str(v)) for k, v in inst.modifs.items() if v is not None and k in (E['mmx'], E['sd'], E['sg'], E['cr'], E['dr'], E['w8'], E['wd'])))
+            shapes.setdefault((n - (n & 7), od.get(afs.size), cm, inst.opmode), (od, inst))
+    r32 = list(afs.reg_list32)
+    FILES = {afs.reg_mm_base: lambda k: 'mm%d' % k, afs.reg_xmm_base: lambda k: 'xmm%d' % k}
+
+    def expected(base, size, cm, k):
+        if base in FILES:
+            return FILES[base](k)
+        cmd = dict(cm)
+        if base == 0:
+            if 'sd' in cmd:
+                return 'float_st%d' % k
+            if size == afs.u08:
+                return '%s[0:8]' % r32[k] if k < 4 else '%s[8:16]' % r32[k - 4]
+            if size == afs.u16:
+                return '%s[0:16]' % r32[k]
+            return r32[k]
+        if 'dr' in cmd and base == 8:
+            return 'dr%d' % k
+        if 'cr' in cmd and base == 16:
+            return 'cr%d' % k
+        if 'sg' in cmd:
+            return list(afs.reg_sg)[k] if k < len(afs.reg_sg) else None
+        return None
+    from ..lifter import show as tshow
+    for key, (od, inst) in sorted(shapes.items(), key=str):
+        base, size, cm, opm = key
+        for k in range(8):
+            want = expected(base, size, cm, k)
+            if want is None:
+                continue
+            d = dict((a, b) for a, b in od.items() if not isinstance(a, int))
+            d[base + k] = 1
+            try:
+                r = I.run(d2e, [d, inst.modifs, inst.opmode, 'u32', set()])
+            except LiftUnknown as e:
+                raise AnalysisError('dict_to_Expr outside the modelled subset on %s: %s' % (d, e))
+            v = r[0][1]
+            iid = 'reg file %s number %d size %s ctx %s opmode %s' % (base, k, size, ','.join('%s=%s' % c for c in cm) or '-', opm)
+            if isinstance(v, LiftError):
+                R3.ok(iid + ':error', nontrivial=False)      # reported by C11.D1
+                continue
+            got = tshow(v)
+            if got == want:
+                R3.ok(iid, sample='%s -> %s' % (iid, got))
+            else:
+                R3.violation(iid, 'regmap:%s:%s:%s:%d' % (base, size, ','.join(c[0] for c in cm), k), 'dict_to_Expr lifts the register operand (file base %s, number %d, size %s, %s) to %s; '
+                             'the decoder means %s' % (base, k, size, ','.join('%s=%s' % c for c in cm) or 'no modifier', got, want), where(sem, d2e.node),
+                             witness='66 0f 72 d7 01 (psrld xmm7, 1) is lifted as an assignment to edi' if want == 'xmm7' else None)
+
     R2 = report.rule('C08.D2', 'SSE/x87 instructions with implicit effects are not left to the generic fallback', floor=8)
     seen_names = set()
     for inst in L.lift_all():
@@ -169,6 +233,7 @@ def _width(t):
 
 
 MUTANTS = [
+    ('xmm7-fencepost', 'miasmx/arch/ia32_sem.py', "            if 0 <= n-x86_afs.reg_xmm_base < 8:\n                t = ia32_rexpr.reg_xmm", "            if 0 <= n-x86_afs.reg_xmm_base < 7:\n                t = ia32_rexpr.reg_xmm", 'C08.D3'),
     ('cmovb-zf', 'miasmx/arch/ia32_sem.py', "    e.append(ExprAff(a, ExprCond( cf , b, a)))", "    e.append(ExprAff(a, ExprCond( zf , b, a)))", 'C08.D1'),
     ('stos-noedi', 'miasmx/arch/ia32_sem.py', "def stos(info, a):\n    e = []\n    off = a.get_size()/8\n    e.append(ExprAff(a, eax[0:a.get_size()]))\n    e.append(ExprAff(a.arg, ExprCond(df,\n                                     ExprOp('-', a.arg, ExprInt_from(a.arg, off)),\n                                     ExprOp('+', a.arg, ExprInt_from(a.arg, off)))))\n",
      "def stos(info, a):\n    e = []\n    off = a.get_size()/8\n    e.append(ExprAff(a, eax[0:a.get_size()]))\n", 'C08.D1'),
